@@ -15,7 +15,85 @@ import (
 	"github.com/openacid/low/size"
 )
 
+// execStat (extra X05): the shape of size.Stat's rendering: per line its indentation level (4 blanks each) and the
+// last integer on it (-1 for a "<nil>" line).
+func execStat(in In, em *Emitter) {
+	t, v := in.O("t"), in.O("v")
+	depth, maxItem := in.Int("depth"), in.Int("maxItem")
+	o := J{}
+	abn := guard(func() {
+		typ := buildType(t, v)
+		arg := buildValue(t, v, typ).Interface()
+		var lines [][]int64
+		for _, ln := range strings.Split(size.Stat(arg, depth, maxItem), "\n") {
+			ind := 0
+			for strings.HasPrefix(ln[4*ind:], "    ") {
+				ind++
+			}
+			n := int64(-1)
+			if !strings.HasSuffix(ln, "<nil>") {
+				if m := lastInt.FindAllString(ln, -1); len(m) > 0 {
+					n, _ = strconv.ParseInt(m[len(m)-1], 10, 64)
+				} else {
+					n = -2
+				}
+			}
+			lines = append(lines, []int64{int64(ind), n})
+		}
+		o["lines"] = lines
+	})
+	em.Emit("stat", J{"in": in.m, "out": o, "abn": abn})
+	em.Calls(1)
+}
+
+// statOK tells whether a value description can be rendered deterministically: maps hold at most one entry.
+func statOK(v interface{}) bool {
+	switch x := v.(type) {
+	case J:
+		if kv, ok := x["kv"]; ok {
+			if l, ok := kv.([][]J); ok && len(l) > 1 {
+				return false
+			}
+		}
+		for _, y := range x {
+			if !statOK(y) {
+				return false
+			}
+		}
+	case []J:
+		for _, y := range x {
+			if !statOK(y) {
+				return false
+			}
+		}
+	case [][]J:
+		for _, y := range x {
+			if !statOK(y) {
+				return false
+			}
+		}
+	}
+	return true
+}
+
+func genX05(g *Gen) {
+	sg := &sizeGen{r: g.R}
+	for c := 0; c < g.N(3000, 60000); c++ {
+		depth := 1 + g.R.Intn(4)
+		t := sg.typ(depth)
+		for t["k"] == "iface" {
+			t = sg.typ(depth)
+		}
+		v := sg.val(t, depth, false)
+		if !statOK(v) {
+			continue
+		}
+		g.Case("stat", J{"t": t, "v": v, "depth": g.R.Intn(5), "maxItem": []int{0, 1, 2, 3, 100, -1}[g.R.Intn(6)]})
+	}
+}
+
 func init() {
+	props["X05"] = &Prop{Gen: genX05, Exec: map[string]func(in In, em *Emitter){"stat": execStat}}
 	props["C20"] = &Prop{Gen: genC20, Exec: map[string]func(in In, em *Emitter){"size": execSize},
 		Trivial: func(k string, in In) bool { return in.Bool("topnil") }}
 }
